@@ -27,7 +27,7 @@ ASSUMPTIONS = [
     "SynthesisException/GeneticEngineError from infeasible dependent contexts are not generated here (no dependent refinements)",
 ]
 
-FLAGS = Flags(refined=True, dependent=False, user_mh=False, max_concrete=6, concrete_start=True)
+FLAGS = Flags(refined=True, dependent=False, user_mh=False, max_concrete=6, concrete_start=True, weights=True, zero_weights=True)
 DECIDERS = ("maxdepth", "full", "pigrow")
 
 
